@@ -835,6 +835,38 @@ impl<'a> TGen<'a> {
         if self.trap_here(t, "drop-guard") {
             return atom;
         }
+        // the guard is written for a *sibling* access path of the same type (`p.home has zip && p.work.zip == …`)
+        if self.trap.is_some() && self.trap_planted.is_none() {
+            let last = guards[guards.len() - 1].clone();
+            let (base, rebuild): (Option<E>, Box<dyn Fn(E) -> E>) = match &last {
+                E::Has(base, path) => {
+                    let path = path.clone();
+                    (Some((**base).clone()), Box::new(move |nb| E::Has(b(nb), path.clone())))
+                }
+                E::Bin(BinOp::HasTag, base, key) => {
+                    let key = (**key).clone();
+                    (Some((**base).clone()), Box::new(move |nb| E::Bin(BinOp::HasTag, b(nb), b(key.clone()))))
+                }
+                _ => (None, Box::new(|x| x)),
+            };
+            if let Some(base) = base {
+                let key = format!("{:?}", base);
+                if let Some(bp) = self.paths.iter().find(|p| format!("{:?}", p.e) == key).cloned() {
+                    let last_len = |e: &E| if let E::GetAttr(_, k) = e { k.len() } else { 0 };
+                    let sibs: Vec<Path> = self.paths.iter().filter(|p| p.ty == bp.ty && format!("{:?}", p.e) != key).cloned().collect();
+                    // prefer siblings whose last attribute name is as long as the original's
+                    let same_len: Vec<Path> = sibs.iter().filter(|p| last_len(&p.e) == last_len(&bp.e)).cloned().collect();
+                    let pool = if same_len.is_empty() { sibs } else { same_len };
+                    if !pool.is_empty() && self.trap_here(t, "guard-on-sibling") {
+                        let sp = pool[t.upto(pool.len())].clone();
+                        let mut gs: Vec<E> = guards[..guards.len() - 1].to_vec();
+                        gs.extend(sp.guards.clone());
+                        gs.push(rebuild(sp.e));
+                        return conj(gs, atom);
+                    }
+                }
+            }
+        }
         if self.trap_here(t, "or-instead-of-and") {
             let g = conj(guards[..guards.len() - 1].to_vec(), guards[guards.len() - 1].clone());
             return E::Or(b(g), b(atom));
